@@ -314,6 +314,25 @@ func progs() []prog {
 			w.Join()
 			finish(x, e, w, nil)
 		}},
+		{name: "stop-before-run/accepted-call-pending", pb: [2]int{2, 3}, only: func(e *exec) bool { return e.drains }, body: func(x *world, e *exec, w *mc.World) {
+			// a call is accepted while the lane has not been started yet; Stop comes first, Run afterwards:
+			// the accepted call must still complete
+			c1 := w.Go("c1", func() { caller(x, e, 1, 2, vctx.New(), false, false) })
+			w.Go("stop-then-run", func() {
+				vsync.BlockOn(func() bool { return c1.ParkedAt(vsync.OpSelect) }) // c1 is queued and waits for its result
+				w.Touch()
+				x.stopCalled = true
+				e.stop()
+				e.run()
+			})
+			w.Join()
+			w.Touch()
+			x.stopDone = true
+			finish(x, e, w, nil)
+			if x.started[1] != 1 {
+				w.Failf("call 1 was accepted before Stop but was executed %d times", x.started[1])
+			}
+		}},
 		{name: "call-after-stop", pb: [2]int{2, 3}, body: func(x *world, e *exec, w *mc.World) {
 			e.run()
 			w.Go("c1", func() { caller(x, e, 1, 2, vctx.New(), false, false) })
